@@ -600,6 +600,103 @@ fn record_pop(sink: &mut Sink, necu: u64, napid: u64, nctid: u64, n: u64) {
     });
 }
 
+/// (n, (ecu base, modulus), (apid base, modulus), (ctid base, modulus), reversed) — Exec/C19.v seg_msg
+type Seg = (u64, (u64, u64), (u64, u64), (u64, u64), bool);
+
+fn segs_stream(segs: &[Seg]) -> Vec<DltMessage> {
+    let mut v = vec![];
+    let mut start = 0u64;
+    for (n, (e0, en), (a0, an), (c0, cn), rv) in segs {
+        for j in 0..*n {
+            let jj = if *rv { n - 1 - j } else { j };
+            let k = start + j;
+            let mut m = mk(k as u32, 1_000_000 * k, (e0 + jj % en) as u32, k as u32, 49, Some((65, 1, (a0 + (jj / en) % an) as u32, (c0 + (jj / (en * an)) % cn) as u32)), vec![]);
+            m.standard_header.mcnt = 0;
+            v.push(m);
+        }
+        start += n;
+    }
+    v
+}
+
+/// id populations described structurally (table growth up to, at and beyond the capacity at every level, mixtures,
+/// arrival orders); the model expands the same description
+fn record_seg(sink: &mut Sink, segs: Vec<Seg>, what: &str) {
+    let ins = segs_stream(&segs);
+    let r = run_anon(ins.clone());
+    let (verdict, within) = anon_oracle(&ins, &r);
+    let obs = match &r {
+        Ok(outs) => O::T(vec![
+            O::L(0),
+            O::T(
+                outs.iter()
+                    .map(|m| {
+                        O::T(vec![
+                            O::n(c4(&m.ecu)),
+                            match &m.extended_header {
+                                Some(e) => O::T(vec![O::n(c4(&e.apid)), O::n(c4(&e.ctid))]),
+                                None => O::T(vec![]),
+                            },
+                        ])
+                    })
+                    .collect(),
+            ),
+        ]),
+        Err(_) => O::T(vec![O::L(1)]),
+    };
+    let input_coq = format!(
+        "(CAnonSeg {})",
+        clist(&segs.iter().map(|(n, e, a, c, rv)| format!("({}, ({}, {}), ({}, {}), ({}, {}), {})", n, e.0, e.1, a.0, a.1, c.0, c.1, cbool(*rv))).collect::<Vec<_>>())
+    );
+    let id = sink.next_id();
+    sink.push(Case {
+        id,
+        key: input_coq.clone(),
+        input_coq,
+        input_json: json!({"v": "seg", "segs": segs.iter().map(|(n, e, a, c, rv)| json!([n, e.0, e.1, a.0, a.1, c.0, c.1, rv])).collect::<Vec<_>>(), "what": what}),
+        obs,
+        verdict,
+        classes: vec![],
+        tags: vec!["pop".into(), format!("pop_{}", what), if within { "pop_within_capacity".into() } else { "pop_beyond_capacity".into() }],
+        nontrivial: true,
+    });
+}
+
+/// the capacity family of one run: per table level 999 / 1000 / a little more (in order and reversed), mixtures
+fn capacity_family(rng: &mut Rng, big: bool) -> Vec<(Vec<Seg>, String)> {
+    const E: u64 = 0x5000_0000;
+    const A: u64 = 0x4100_0000;
+    const C: u64 = 0x4300_0000;
+    let level = |lv: u64, ids: u64, n: u64, rv: bool, off: u64| -> Seg {
+        match lv {
+            0 => (n, (E + off, ids), (A, 1), (C, 1), rv),
+            1 => (n, (E + off, 1), (A, ids), (C, 1), rv),
+            _ => (n, (E + off, 1), (A + off, 1), (C, ids), rv),
+        }
+    };
+    let names = ["ecu", "apid", "ctid"];
+    let mut v = vec![];
+    for lv in 0..3u64 {
+        let over = 1000 + rng.range(1, 15);
+        v.push((vec![level(lv, 999, 999 + rng.range(0, 12), false, 0)], format!("{}_999", names[lv as usize])));
+        v.push((vec![level(lv, 1000, 1000, false, 0)], format!("{}_1000", names[lv as usize])));
+        v.push((vec![level(lv, over, over + rng.range(0, 5), false, 0)], format!("{}_above", names[lv as usize])));
+        v.push((vec![level(lv, over, over, true, 0)], format!("{}_above_reversed", names[lv as usize])));
+    }
+    // mixtures: a table beyond the capacity next to small ones, in both arrival orders; every id seen twice
+    let over = 1000 + rng.range(1, 9);
+    v.push((vec![(over, (E, 1), (A, 1), (C, over), false), (3, (E, 1), (A + 1, 1), (C, 3), false)], "mix_ctid_big_then_small".into()));
+    v.push((vec![(3, (E, 1), (A + 1, 1), (C, 3), false), (over, (E, 1), (A, 1), (C, over), true)], "mix_ctid_small_then_big".into()));
+    v.push((vec![(over, (E, 1), (A, over), (C, 1), false), (5, (E + 1, 1), (A, 5), (C, 2), false)], "mix_apid_two_ecus".into()));
+    v.push((vec![(over, (E, over), (A, 1), (C, 1), false), (over, (E, over), (A, 1), (C, 1), true)], "mix_ecu_seen_twice".into()));
+    v.push((vec![(2400, (E, 1), (A, 4), (C, 600), false)], "spread_within".into()));
+    if big {
+        v.push((vec![(10_050, (E, 1), (A, 1), (C, 10_050), false)], "ctid_10050".into()));
+        v.push((vec![(3000, (E, 3), (A, 1000), (C, 1), false), (2000, (E, 2000), (A, 1), (C, 1), true)], "mix_levels".into()));
+    }
+    v
+}
+
 // ------------------------------------------------------------------------------------------------ traffic generators
 const TI_STR: u32 = 0x200;
 const TI_RAW: u32 = 0x400;
@@ -1972,6 +2069,18 @@ fn replay(sink: &mut Sink, c: &Value) {
             let chain = c["plugins"].as_array().unwrap().iter().map(Plug::from_json).collect();
             record_frame(sink, chain, msgs(c), vec![]);
         }
+        "seg" => {
+            let segs = c["segs"]
+                .as_array()
+                .unwrap()
+                .iter()
+                .map(|x| {
+                    let n = |i: usize| x[i].as_u64().unwrap();
+                    (n(0), (n(1), n(2)), (n(3), n(4)), (n(5), n(6)), x[7].as_bool().unwrap())
+                })
+                .collect();
+            record_seg(sink, segs, c["what"].as_str().unwrap_or("replay"));
+        }
         "dec" => {
             let chain = c["plugins"].as_array().unwrap().iter().map(Plug::from_json).collect();
             record_dec(sink, chain, msgs(c), vec![]);
@@ -2035,9 +2144,6 @@ fn main() {
     );
     record_loop(&mut sink, vec![], None, (0..3).map(|i| mk(i, 100, ch(b"ECU1"), i, 0x30, None, vec![])).collect());
     // capacity: exactly 999 ids per table, and one more (outside the property's quantifier; the model must still agree)
-    record_pop(&mut sink, 999, 1, 1, 1010);
-    record_pop(&mut sink, 1, 999, 1, 1010);
-    record_pop(&mut sink, 1, 1, 999, 1010);
     record_pop(&mut sink, 1000, 1, 1, 1001);
     record_pop(&mut sink, 7, 5, 3, 250);
     if !quick && !search {
@@ -2092,9 +2198,19 @@ fn main() {
 
     // ---- generated
     let scale = a.count.unwrap_or(if quick { 1 } else if search { 2 } else { 15 });
-    for _ in 0..(250 * scale) {
+    // the capacity family is spread over the run so that the ~1000-message cases land in different shards
+    let mut family = capacity_family(&mut Rng::new(a.seed ^ 0xC0FFEE), !quick && !search);
+    for k in 0..(250 * scale) {
+        if k % 12 == 0 {
+            if let Some((segs, what)) = family.pop() {
+                record_seg(&mut sink, segs, &what);
+            }
+        }
         let (s, c, m) = gen_loop_case(&mut rng);
         record_loop(&mut sink, s, c, m);
+    }
+    for (segs, what) in family {
+        record_seg(&mut sink, segs, &what);
     }
     for _ in 0..(200 * scale) {
         let n = rng.range(1, 14);
